@@ -24,4 +24,27 @@ def contributions (es : List REdge) (i j : Nat) : List Rat :=
 /-- entry (i, j) of the adjacency matrix: the sum of the contributions (their `or` when there is no weight key) -/
 def specEntry (k : Kind) (es : List REdge) (i j : Nat) : Rat := combine k (contributions es i j)
 
+/-- **what it means to read the edge element `c` as the resolved edge `e`**, clause by clause, in terms of the
+    document only (`wid`, `wtype`, `wdefault`: id, declared type and default of the weight key):
+    * named nodes: the node ids at positions `e.source`, `e.target` are the `source`, `target` attributes;
+      canonical node ids (`parse.nodeids="canonical"`): the attributes are `n<source>`, `n<target>`;
+    * weight: the declared default when no `<data>` child carries the weight key, else the value of the text of
+      the last one that does, converted to the declared type;
+    * undirected iff the element's own `directed` attribute is not "true", or it has none and the graph's
+      `edgedefault` is "undirected". -/
+structure ReadsAs (num : String → Option Rat) (parseNat : String → Option Nat) (nodeids edgedefault : Option String)
+    (nodeIds : List String) (wid : Option String) (wtype : Option PType) (wdefault : Rat)
+    (c : Child) (e : REdge) : Prop where
+  source_named : nodeids ≠ some "canonical" → ∃ s, c.source = some s ∧ nodeIds[e.source]? = some s
+  target_named : nodeids ≠ some "canonical" → ∃ s, c.target = some s ∧ nodeIds[e.target]? = some s
+  source_canonical : nodeids = some "canonical" →
+    ∃ s, c.source = some s ∧ parseNat (String.ofList (s.toList.drop 1)) = some e.source
+  target_canonical : nodeids = some "canonical" →
+    ∃ s, c.target = some s ∧ parseNat (String.ofList (s.toList.drop 1)) = some e.target
+  weight_default : (∀ d ∈ c.data, some d.1 ≠ wid) → e.weight = wdefault
+  weight_data : ∀ pre k t post, c.data = pre ++ (k, t) :: post → some k = wid → (∀ d ∈ post, some d.1 ≠ wid) →
+    convert num wtype t = .ok e.weight
+  direction : e.undirected = true ↔
+    (∃ d, c.directed = some d ∧ d ≠ "true") ∨ (c.directed = none ∧ edgedefault = some "undirected")
+
 end SkNet.GraphML
